@@ -668,3 +668,48 @@ Proof.
   split; [vm_compute; reflexivity|]. split; [reflexivity|]. split; [reflexivity|]. split; [reflexivity|].
   split; [reflexivity|]. split; [intro C; vm_compute in C; discriminate|]. vm_compute. reflexivity.
 Qed.
+
+(* ------------------------------------------------------------------------------------------ which RAW column a job is fitted on
+   (index lists in ANY order: position k of optimized_metrics_index / constraint_metrics_index pairs with column k of
+   values[:, index_list], i.e. with raw column index_list[k]) *)
+Lemma select_ext {A} (d : A) : forall (mask : list bool) (l1 l2 : list A),
+  length l1 = length mask -> length l2 = length mask ->
+  (forall r, (r < length mask)%nat -> nth r mask false = true -> nth r l1 d = nth r l2 d) ->
+  Midpoint.select mask l1 = Midpoint.select mask l2.
+Proof.
+  induction mask as [|b m IH]; intros l1 l2 H1 H2 H; [reflexivity|].
+  destruct l1 as [|x1 r1]; [discriminate|]. destruct l2 as [|x2 r2]; [discriminate|].
+  simpl in H1, H2. injection H1 as H1. injection H2 as H2.
+  assert (Hr : Midpoint.select m r1 = Midpoint.select m r2).
+  { apply IH; auto. intros r Hr Hm. apply (H (S r)); simpl; [lia|exact Hm]. }
+  simpl. destruct b.
+  - rewrite Hr. f_equal. apply (H 0%nat); simpl; [lia|reflexivity].
+  - exact Hr.
+Qed.
+
+Theorem job_on_own_raw_column vals vars fails objs opt_ix con_ix jobs index v w :
+  length fails = length vals ->
+  view_jobs vals vars fails objs opt_ix con_ix = Some jobs -> In (index, v, w) jobs ->
+  exists i, Midpoint.smmi (Midpoint.column index vals) fails (nth index objs Midpoint.NoObjective) = Some i /\
+    v = map (Midpoint.rel_value i) (Midpoint.select (map negb fails) (Midpoint.column index vals)).
+Proof.
+  intros LF Hj Hin.
+  destruct (view_jobs_in _ _ _ _ _ _ _ _ _ _ Hj Hin) as (ix & o & j & _ & Hp & Hix & -> & _).
+  destruct (Proofs.Midpoint.view_law ix vals vars fails objs (repeat None (length objs)) LF) as (o' & Hp' & _ & Hlen & Hlaw).
+  rewrite Hp in Hp'. injection Hp' as <-.
+  assert (Hjlt : (j < length ix)%nat) by (apply nth_error_Some; congruence).
+  destruct (Hlaw j Hjlt) as (i & l & Hs & _ & _ & Hval & _).
+  rewrite (nth_error_nth ix j 0%nat Hix) in Hs, Hval.
+  exists i. split; [exact Hs|].
+  rewrite <- Proofs.Midpoint.select_map.
+  apply (select_ext 0).
+  - unfold Midpoint.column. rewrite !map_length. lia.
+  - unfold Midpoint.column. rewrite !map_length. lia.
+  - rewrite map_length. intros r Hr Hm. rewrite LF in Hr.
+    assert (Hf : nth r fails false = false).
+    { rewrite (Proofs.Midpoint.nth_map' negb fails r false false) in Hm by lia. destruct (nth r fails false); [discriminate|reflexivity]. }
+    unfold Midpoint.column.
+    rewrite (Proofs.Midpoint.nth_map' (fun row => nth j row 0) (Midpoint.v_values o) r [] 0) by lia.
+    rewrite map_map. rewrite (Proofs.Midpoint.nth_map' (fun row => Midpoint.rel_value i (nth index row 0)) vals r [] 0) by lia.
+    rewrite (Hval r Hr), Hf. reflexivity.
+Qed.
